@@ -25,6 +25,8 @@ def call(tt, case):
     if cls in ("shape", "kind") and op in ("add", "sub", "mul", "kron", "truediv", "matmul") and Y is not None:
         return {"add": lambda: X + Y, "sub": lambda: X - Y, "mul": lambda: X * Y, "kron": lambda: tt.kron(X, Y),
                 "truediv": lambda: X / Y, "matmul": lambda: X @ Y}[op]
+    if op == "projection" and Y is not None:
+        return lambda: tt.manifold.riemannian_projection(X, Y)
     if cls == "shape" and op == "fast_matvec" and Y is not None:
         return lambda: X.fast_matvec(Y, nswp=2)
     if op == "matdense":
